@@ -269,7 +269,8 @@ def quad_oracle(q, sigma, alpha, rel=1e-6, abs_=1e-11):
     try:
         got = float(R._compute_rdp(q, sigma, alpha))
     except Exception as e:
-        return (f"C06:rdp-raises:{type(e).__name__}:{'int' if is_int_order(alpha) else 'frac'}",
+        near = (not is_int_order(alpha)) and abs(alpha - round(alpha)) <= 1e-9 * abs(alpha)
+        return (f"C06:rdp-raises:{type(e).__name__}:{'near-integer-order' if near else 'int' if is_int_order(alpha) else 'frac'}",
                 f"_compute_rdp(q={q}, sigma={sigma}, alpha={alpha}) raises {type(e).__name__}: {e}",
                 {"q": q, "sigma": sigma, "alpha": alpha})
     la, qerr = true_log_a(q, sigma, alpha)
@@ -379,7 +380,8 @@ def eps_oracle(history, delta, alphas=None, slack=1e-6):
     try:
         eps = float(acc.get_epsilon(delta, alphas=alphas)) if alphas is not None else float(acc.get_epsilon(delta))
     except Exception as e:
-        return (f"C06:get-epsilon-raises:{type(e).__name__}", f"RDPAccountant.get_epsilon raises {type(e).__name__}: {e} on history {history}", {"history": history, "delta": delta})
+        near = alphas is not None and any((not math.isinf(a)) and (not is_int_order(a)) and abs(a - round(a)) <= 1e-9 * abs(a) for a in alphas)
+        return (f"C06:get-epsilon-raises:{type(e).__name__}" + (":near-integer-order" if near else ""), f"RDPAccountant.get_epsilon raises {type(e).__name__}: {e} on history {history}", {"history": history, "delta": delta})
     low = pld_eps_lower(history, delta)
     if low is None:
         return None
